@@ -134,16 +134,16 @@ fn global_module_reference(input: Input<'_>) -> ParserResult<'_, GlobalModuleRef
 fn import(input: Input<'_>) -> ParserResult<'_, Import> {
     into(skip_ws_and_comments(pair(
         separated_list1(
-            skip_ws(char(COMMA)),
-            skip_ws(alt((parameterized_identifier, identifier))),
+            skip_ws_and_comments(char(COMMA)),
+            skip_ws_and_comments(alt((parameterized_identifier, identifier))),
         ),
         preceded(
             skip_ws_and_comments(tag(FROM)),
             skip_ws_and_comments(pair(
                 global_module_reference,
                 opt(into_inner(skip_ws_and_comments(alt((
-                    tag(WITH_SUCCESSORS),
-                    tag(WITH_DESCENDANTS),
+                    keyword(WITH_SUCCESSORS),
+                    keyword(WITH_DESCENDANTS),
                 ))))),
             )),
         ),
